@@ -237,3 +237,88 @@ def run(ctx):
     mn = db.fns("methodNameFromCppName")
     ok = any(any(c.get("k") == "call" and c.get("f") == "checkKeyword" for c in f.walk()) for f in mn)
     ctx.ob("R02.2", "methodNameFromCppName|calls-checkKeyword", ok, mn[0].loc() if mn else "", "method names pass through checkKeyword()")
+
+    # ------------------------------------------------------------ R02.4
+    constness_predicates(ctx)
+
+
+def _canon_arm(db, f, stmts, label):
+    """Canonical form of a switch arm of a constness predicate:
+       ('const', sub) / ('not-const', sub)  for  [!]is_const(type->as_<sub>_type()->_pointing_at)
+       ('self', sub, field)                 for  <same predicate>(type->as_<sub>_type()-><field>)
+       ('other', text)"""
+    rets = [x for st in stmts for x in walk(st) if x.get("k") == "ret"]
+    # locals introduced in the arm (`CPPType *target = ...; return !is_const(target);`) are read through
+    env = {}
+    flat = []
+    for st in stmts:
+        flat += st.get("s", []) if st.get("k") == "block" else [st]
+    for st in flat:
+        if st.get("k") == "decls":
+            for d in st["d"]:
+                if d.get("init") is not None:
+                    env[d["d"]] = d["init"]
+    if len(rets) != 1 or any(st.get("k") not in ("decls", "ret") for st in flat):
+        return ("other", " ; ".join(show(st)[:60] for st in stmts))
+
+    def thru(n):
+        n = strip_casts(peel(n))
+        seen = 0
+        while n is not None and n.get("k") == "ref" and n.get("d") in env and seen < 8:
+            n = strip_casts(peel(env[n["d"]]))
+            seen += 1
+        return n
+    e = thru(rets[0].get("e"))
+    neg = False
+    while e is not None and e.get("k") == "un" and e.get("op") == "!":
+        neg = not neg
+        e = thru(e["e"])
+    if e is None or e.get("k") != "call" or len(e.get("a", [])) != 1:
+        return ("other", show(rets[0])[:80])
+    arg = thru(e["a"][0])
+    sub = fld = None
+    if arg is not None and arg.get("k") == "mem":
+        fld = arg["n"].split("::")[-1]
+        b = thru(arg.get("b"))
+        if b is not None and b.get("k") == "call" and callee_short(b).startswith("as_"):
+            sub = callee_short(b)[3:].replace("_type", "")
+    if e.get("f") == "TypeManager::is_const" and fld == "_pointing_at":
+        return ("not-const" if neg else "const", sub)
+    if e.get("f") == f.name and not neg:
+        return ("self", sub, fld)
+    return ("other", show(rets[0])[:80])
+
+
+def constness_predicates(ctx):
+    """R02.4: what decides `const_ok` for a pointer/reference parameter and the constness of a returned wrapper."""
+    from .C04 import switch_arms
+    db = ctx.db
+    ctx.rule("R02.4", "TypeManager::is_const_pointer_or_ref / is_non_const_pointer_or_ref: a pointer and a reference are judged by the constness of what they point at (the two predicates are each other's negation there), const and typedef wrappers are looked through")
+    en = db.enums.get("CPPDeclaration::SubType")
+    if en is None:
+        ctx.broken("enum CPPDeclaration::SubType not found")
+    names = {c["v"]: c["n"].split("::")[-1] for c in en["consts"]}
+    want = {"TypeManager::is_const_pointer_or_ref": "const", "TypeManager::is_non_const_pointer_or_ref": "not-const"}
+    n = 0
+    for fname, pol in want.items():
+        f = db.fn(fname)
+        sw = [x for x in f.walk() if x.get("k") == "switch" and any(c.get("k") == "call" and callee_short(c) == "get_subtype" for c in walk(x["c"]))]
+        if len(sw) != 1:
+            ctx.broken("%s: subtype switch not found" % fname)
+        arms = {}
+        for labs, stmts in switch_arms(sw[0]):
+            for v in labs:
+                arms[names.get(v, v)] = stmts
+        short = fname.split("::")[-1]
+        for lab, sub in (("ST_pointer", "pointer"), ("ST_reference", "reference")):
+            n += 1
+            got = _canon_arm(db, f, arms.get(lab, []), lab)
+            ctx.ob("R02.4", "%s|%s" % (short, lab), got == (pol, sub), f.loc(arms[lab][0]) if arms.get(lab) else f.loc(),
+                   "a %s is judged by %s; expected %sis_const(type->as_%s_type()->_pointing_at)" % (sub, got, "!" if pol == "not-const" else "", sub))
+        for lab, sub, fld in (("ST_const", "const", "_wrapped_around"), ("ST_typedef", "typedef", "_type")):
+            n += 1
+            got = _canon_arm(db, f, arms.get(lab, []), lab)
+            ctx.ob("R02.4", "%s|%s" % (short, lab), got == ("self", sub, fld), f.loc(arms[lab][0]) if arms.get(lab) else f.loc(),
+                   "a %s wrapper is looked through: %s" % (sub, got))
+    ctx.floor("R02.4", "constness predicate arms", n, 8)
+
